@@ -31,6 +31,17 @@ func runC28(c *core.Ctx, b core.Batch) {
 		nb = 4
 	}
 	types := shard(codecTypes(b), b.N, nb)
+	if b.Cfg == "base" && b.N == 0 {
+		// dynamic message types with oneofs at every position (see c12Shapes)
+		if shapes, err := c12Shapes(); err == nil {
+			for i, mt := range shapes {
+				if i%4 == 0 || !c.Quick() {
+					types = append(types, mt)
+					c.Count("oneof_position_shapes")
+				}
+			}
+		}
+	}
 	per := c.Scale(40, 400)
 	if b.Cfg == "race" {
 		per = c.Scale(4, 30)
